@@ -131,7 +131,7 @@ static void prop_equiv_mpi(Tape &t, Ctx &c) {
         break;
     case 2: if (t.b()) put(rp + "damping", t.uni(0.4, 1.0)); break;
     case 3: if (t.b()) put(rp + "serial", true); break;
-    case 4: if (t.b()) put(rp + "damping", t.uni(0.5, 1.0)); if (t.b()) put(rp + "solve.iters", static_cast<int>(t.u(1, 4))); break;
+    case 4: if (t.b()) put(rp + "damping", t.uni(0.5, 1.0)); if (t.b()) put(rp + "solve.serial", t.b()); break;
     case 5: if (t.b()) put(rp + "k", static_cast<int>(t.u(0, 2))); if (t.b()) put(rp + "damping", t.uni(0.5, 1.0)); break;
     case 6: if (t.b()) put(rp + "p", t.uni(1.0, 3.0)); if (t.b()) put(rp + "tau", t.uni(1e-3, 1e-1)); break;
     default: break;
